@@ -136,7 +136,8 @@ class Projection:
                     ph = "PJoinSent"
                     if q["reply"]:
                         rp = q["reply"]
-                        inbox = ("RpJoin", rp["code"], max(rp.get("gen") or 0, 0), self.rk(rp.get("member")))
+                        inbox = ("RpJoin", rp["code"], max(rp.get("gen") or 0, 0))
+                        waiting_join[name] = rp.get("member")
                     else:
                         a = q["arrived"]
                         mid = a["member"]
@@ -247,7 +248,7 @@ def coq_state(coord, members):
         if ib is None:
             inbox = "None"
         elif ib[0] == "RpJoin":
-            inbox = f"(Some (RpJoin {zc(ib[1])} {ib[2]} {ib[3]}))"
+            inbox = f"(Some (RpJoin {zc(ib[1])} {ib[2]}))"
         else:
             inbox = f"(Some (RpSync {zc(ib[1])}))"
         oz = lambda x: "None" if x is None else f"(Some {zc(x)})"  # noqa: E731
@@ -270,3 +271,174 @@ def project(sc, r):
     obs = p.observations(k)
     return {"kind": "ok", "p": p, "k": k, "t0": p.trace[k]["t"], "q": qt, "coord": coord, "members": members, "obs": obs,
             "state": coq_state(coord, members)}
+
+
+# ---------------------------------------------------------------------------------------------------
+def candidate_projections(sc, r, max_candidates=3):
+    """projections from the first few probe snapshots after the environment's last action"""
+    p = Projection(sc, r)
+    if not p.live or "g" not in r.get("groups", {}):
+        return p, []
+    qi, qt = p.quiet_index()
+    out = []
+    k = p.snapshot_index(qi, qt)
+    while k is not None and len(out) < max_candidates:
+        coord, members = p.initial_state(k)
+        out.append({"k": k, "t0": p.trace[k]["t"], "q": qt, "coord": coord, "members": members,
+                    "obs": p.observations(k), "state": coq_state(coord, members)})
+        k = p.snapshot_index(k, qt)
+    return p, out
+
+
+def monitor_verdict(sc, r):
+    """the independent monitor of c06.py on this run, evaluated on a scratch Check"""
+    import c06
+    scratch = Check("C06")
+    return c06.monitor_convergence(scratch, sc, r, 12.0), [v.what for v in scratch.violations]
+
+
+RESULT_RE = None
+
+
+def check_converge(ck: Check):
+    import re
+    ck.trusted += [
+        "model/C06_Converge.v: quiet-period LTS written by hand after harness/simkit/groupcoord.py (coordinator) and "
+        "group_coordinator.py (member skeleton: which request follows which); member reactions to reply codes are the "
+        "translated dispatch chains (tie T); tied to the real consumers by acceptance of the quiet suffix of every "
+        "simulated run, started from a state read off the real objects (probe in harness/impl/consumer_sim.py: wrappers "
+        "around GroupCoordinator._send_req / coordinator_id and around the simulated broker's request/reply path; no "
+        "source change)",
+        "timing assumptions of the convergence theorems (A1-A5 in model/C06_Converge.v): live members answer within the "
+        "session / rebalance / request timeouts in the quiet period, orphan ids expire, FindCoordinator answers the "
+        "current coordinator; real time, subscription changes and the faults themselves are outside the model "
+        "(they end before the replayed suffix starts)",
+    ]
+    runs = [(sc, r) for scs, res in RUNS for sc, r in zip(scs, res)]
+    if not runs:
+        ck.obligation("correspondence:converge-runs-recorded", False, "no simulated runs were recorded")
+        return
+    items = []
+    hist = {"runs": 0, "no_member_stays": 0, "no_snapshot_after_quiet": 0, "replayed": 0, "start_not_first_snapshot": 0,
+            "initial_states": {}, "observations": 0, "converged_model": 0, "nontrivial_start": 0}
+    for sc, r in runs:
+        if not r.get("ok"):
+            continue
+        hist["runs"] += 1
+        p, cands = candidate_projections(sc, r)
+        if not p.live:
+            hist["no_member_stays"] += 1
+            continue
+        if not cands:
+            hist["no_snapshot_after_quiet"] += 1
+            continue
+        items.append((sc, r, p, cands))
+    # one Coq evaluation per candidate start: inv_b first; the replay only matters for the chosen start
+    bodies, index = [], []
+    per = max(1, (len(items) + 15) // 16)
+    for i in range(0, len(items), per):
+        lines = ["Local Open Scope nat_scope."]
+        for (sc, r, p, cands) in items[i:i + per]:
+            for ci, c in enumerate(cands):
+                obs = "; ".join(o for _, o in c["obs"])
+                lines.append(f"Eval vm_compute in (let s0 := {c['state']} in if inv_b s0 then "
+                             f"(let r := replay_check 0 s0 [{obs}] in "
+                             f"(1, fst (fst (fst r)), snd (fst (fst r)), snd (fst r), converged_b s0, converged_b (snd r), mu s0, snd r)) "
+                             f"else (0, 0, false, (0, 0), false, false, 0, s0)).")
+                index.append((len(bodies), sc["id"], ci))
+        bodies.append("\n".join(lines) + "\n")
+    res = ck.coq_eval_sharded("c06_converge", ["DispatchActs", "C06_Converge"], bodies, timeout=ck.n(600, 1800))
+    vals_by_body = []
+    for okc, out in res:
+        vals_by_body.append(parse_eval_outputs(out) if okc else None)
+        if not okc:
+            ck.obligation("correspondence:converge-evaluated-in-coq", False, out[-400:])
+    pos = {}
+    results = {}
+    for (bi, sid, ci) in index:
+        vs = vals_by_body[bi]
+        j = pos.get(bi, 0)
+        pos[bi] = j + 1
+        if vs is None or j >= len(vs):
+            continue
+        m = re.match(r"\((\d+)(?:%nat)?, (\d+)(?:%nat)?, (true|false), \((\d+)(?:%nat)?, (\d+)(?:%nat)?\), (true|false), "
+                     r"(true|false), (\d+)(?:%nat)?, (.*)\)$", vs[j].strip(), re.S)
+        if m:
+            results[(sid, ci)] = dict(inv=m.group(1) == "1", accepted=int(m.group(2)), all=m.group(3) == "true",
+                                      bad_at=int(m.group(4)), bad_kind=int(m.group(5)), conv0=m.group(6) == "true",
+                                      conv=m.group(7) == "true", mu0=int(m.group(8)), state=m.group(9))
+    n_rej = n_inv = n_mis = n_var = 0
+    for (sc, r, p, cands) in items:
+        chosen = None
+        for ci, c in enumerate(cands):
+            rs = results.get((sc["id"], ci))
+            if rs is None:
+                break
+            if rs["inv"]:
+                chosen = (ci, c, rs)
+                break
+        if chosen is None:
+            if all((sc["id"], ci) in results for ci in range(len(cands))):
+                n_inv += 1
+                if n_inv <= 3:
+                    ck.violation("the state the quiet period starts from violates the invariant of the convergence theorems "
+                                 f"at each of the first {len(cands)} probe snapshots after the environment's last action "
+                                 f"(scenario {sc['id']})",
+                                 {"scenario": sc, "what": "quiet-start state outside inv_b", "quiet_since": cands[0]["q"],
+                                  "snapshots": [c["t0"] for c in cands], "state": cands[0]["state"]},
+                                 signature="converge:quiet-start-outside-invariant")
+            continue
+        ci, c, rs = chosen
+        hist["replayed"] += 1
+        hist["start_not_first_snapshot"] += ci > 0
+        hist["observations"] += len(c["obs"])
+        st0 = c["coord"]["st"]
+        hist["initial_states"][st0] = hist["initial_states"].get(st0, 0) + 1
+        hist["converged_model"] += rs["conv"]
+        hist["nontrivial_start"] += not rs["conv0"]
+        bad, whats = monitor_verdict(sc, r)
+        ck.count(key=("converge", sc["id"], sc["seed"]), nontrivial=not rs["conv0"],
+                 sample={"scenario": sc["id"], "quiet_since": round(c["q"], 3), "replay_from": c["t0"],
+                         "observations": len(c["obs"]), "initial_coordinator_state": st0, "mu0": rs["mu0"]}
+                 if not rs["conv0"] and len(c["obs"]) > 50 else None)
+        if not rs["all"]:
+            n_rej += 1
+            j, o = c["obs"][rs["accepted"]]
+            ctx = [e for e in p.trace[max(c["k"] + 1, j - 25):j + 3]
+                   if e["ev"] not in ("deliver", "probe_snapshot", "offset_commit")]
+            if n_rej <= 3:
+                ck.violation(f"the real run is not a run of the quiet-period model: observation {rs['accepted']} ({o}) is not an "
+                             f"enabled quiet step with that content (scenario {sc['id']})",
+                             {"scenario": sc, "what": "trace rejected by model/C06_Converge.v", "rejected_observation": o,
+                              "index": rs["accepted"], "replay_from": c["t0"], "model_state_before": rs["state"][:3000],
+                              "initial_state": c["state"], "events": ctx},
+                             signature=f"converge:rejected:{o.split()[0]}")
+            continue
+        if rs["bad_kind"]:
+            n_var += 1
+            kind = {1: "a successor state violates inv_b", 2: "the variant mu did not decrease on a real step",
+                    3: "the variant mu increased on a no-op step"}[rs["bad_kind"]]
+            if n_var <= 3:
+                ck.obligation(f"correspondence:converge-per-step-facts:{sc['id']}", False,
+                              f"{kind} at observation {rs['bad_at'] - 1} ({c['obs'][rs['bad_at'] - 1][1]}); state {rs['state'][:600]}")
+            continue
+        if rs["conv"] != (bad == 0):
+            n_mis += 1
+            if n_mis <= 3:
+                ck.violation(f"model and monitor disagree on convergence: model converged_b={rs['conv']}, monitor violations "
+                             f"{whats} (scenario {sc['id']})",
+                             {"scenario": sc, "what": "converged_b vs monitor", "model_final_state": rs["state"][:3000],
+                              "monitor": whats, "replay_from": c["t0"]},
+                             signature="converge:model-monitor-disagree")
+    ck.obligation("correspondence:quiet-suffix-accepted-by-C06_Converge", n_rej == 0,
+                  f"{n_rej} of {hist['replayed']} replayed runs rejected")
+    ck.obligation("correspondence:quiet-start-satisfies-inv_b", n_inv == 0, f"{n_inv} runs with no start state inside inv_b")
+    ck.obligation("correspondence:per-step-facts-on-real-steps(inv_b,mu)", n_var == 0,
+                  f"{n_var} runs with a real step on which inv_b / mu misbehaved")
+    ck.obligation("correspondence:converged_b-iff-monitor", n_mis == 0, f"{n_mis} disagreements of {hist['replayed']}")
+    ck.extra["converge"] = hist
+    ck.cov["rule"] += ("; (c) convergence model: one evaluation = the quiet suffix of one simulated run replayed inside Coq "
+                       "(inv_b at the start, every observation an enabled quiet step with the observed contents, inv_b and "
+                       "the variant mu along the way, converged_b at the end compared with the monitor); non-trivial = the "
+                       "start state is not yet converged")
+    ck.log(f"convergence model: {hist}")
